@@ -124,7 +124,7 @@ func main() {
 					enc.Encode(ev{Op: "panic", In: []string{s(p), s(amt)}, Out: []string{fmt.Sprint(rec)}})
 				}
 			}()
-			switch i % 4 {
+			switch i % 6 {
 			case 0, 1: // fixed-price auction: one bid in each denomination, then settlement
 				au, err := e.k.CreateFixedPriceAuction(e.ctx, &frtypes.MsgCreateFixedPriceAuction{Auctioneer: auctioneer.String(), StartPrice: decFromNum(p),
 					SellingCoin: sdk.NewCoin("denoma", sdkmath.NewIntFromBigInt(supply)), PayingCoinDenom: "denomb", StartTime: t0, EndTime: t0.Add(48 * time.Hour)})
@@ -235,6 +235,71 @@ func main() {
 				paid2 := new(big.Int).Sub(before2, e.bal(bidder2, "denomb"))
 				// both bids are priced >= p; with the huge supply the clearing price is p (the lowest bid price)
 				enc.Encode(ev{Op: "settle_batch", In: []string{s(amt), s(p), s(q)}, Out: []string{s(got1), s(paid1), s(got2), s(paid2)}})
+			case 4, 5: // extension decision at an 18-decimal rate boundary: `last` bids matched at the first end time, `cur` at the second
+				last := int64(2 + r.Intn(8))
+				cur := int64(1 + r.Intn(int(last)+1)) // 1..last+1
+				// the exact fall (last-cur)/last as an 18-decimal number, and its neighbours
+				fall := new(big.Int).Div(new(big.Int).Mul(big.NewInt(last-cur), one18), big.NewInt(last))
+				rate := new(big.Int).Add(fall, big.NewInt([]int64{1, 1, 0, -1}[r.Intn(4)])) // floor of the fall, or one unit of the 18th decimal around it
+				if rate.Sign() <= 0 {
+					rate = big.NewInt(1)
+				}
+				end := t0.Add(24 * time.Hour)
+				au, err := e.k.CreateBatchAuction(e.ctx, &frtypes.MsgCreateBatchAuction{Auctioneer: auctioneer.String(), StartPrice: decFromNum(one18), MinBidPrice: decFromNum(one18),
+					SellingCoin: sdk.NewCoin("denoma", sdkmath.NewInt(last)), PayingCoinDenom: "denomb", VestingSchedules: nil, MaxExtendedRound: 3,
+					ExtendedRoundRate: decFromNum(rate), StartTime: t0, EndTime: end})
+				if err != nil {
+					return
+				}
+				id := au.GetId()
+				bidder2 := e.addr(3)
+				e.fund(bidder2, sdk.NewCoins(sdk.NewCoin("denomb", sdkmath.NewIntFromBigInt(huge))))
+				if err := e.k.AddAllowedBidders(e.ctx, id, []frtypes.AllowedBidder{{AuctionId: id, Bidder: bidder.String(), MaxBidAmount: sdkmath.NewInt(last)},
+					{AuctionId: id, Bidder: bidder2.String(), MaxBidAmount: sdkmath.NewInt(last)}}); err != nil {
+					panic(err)
+				}
+				one := sdk.NewCoin("denoma", sdkmath.NewInt(1))
+				for j := int64(0); j < last; j++ { // `last` unit bids at the floor price: all of them fit the supply of `last` coins
+					if _, err := e.k.PlaceBid(e.ctx, &frtypes.MsgPlaceBid{AuctionId: id, Bidder: bidder.String(), BidType: frtypes.BidTypeBatchMany, Price: decFromNum(one18), Coin: one}); err != nil {
+						return
+					}
+				}
+				if err := e.k.BeginBlocker(e.ctx.WithBlockTime(end)); err != nil {
+					enc.Encode(ev{Op: "block_error", In: []string{s(rate)}, Out: []string{err.Error()}})
+					return
+				}
+				two := new(big.Int).Mul(big.NewInt(2), one18)
+				for j := int64(0); j < cur && j < last; j++ { // unit bids at twice the price: the lower price no longer fits, only these match
+					if _, err := e.k.PlaceBid(e.ctx, &frtypes.MsgPlaceBid{AuctionId: id, Bidder: bidder2.String(), BidType: frtypes.BidTypeBatchMany, Price: decFromNum(two), Coin: one}); err != nil {
+						return
+					}
+				}
+				nowMatched := cur
+				if cur > last { // no higher bids at all would leave all `last` matched; model that case as "no fall"
+					nowMatched = last
+				}
+				a1, err := e.k.Auction.Get(e.ctx, id)
+				if err != nil {
+					panic(err)
+				}
+				ends := a1.GetEndTimes()
+				if len(ends) != 2 {
+					enc.Encode(ev{Op: "ext_decision", In: []string{s(big.NewInt(last)), "0", s(rate)}, Out: []string{"-1"}})
+					return
+				}
+				if err := e.k.BeginBlocker(e.ctx.WithBlockTime(ends[1])); err != nil {
+					enc.Encode(ev{Op: "block_error", In: []string{s(rate)}, Out: []string{err.Error()}})
+					return
+				}
+				a2, err := e.k.Auction.Get(e.ctx, id)
+				if err != nil {
+					panic(err)
+				}
+				ext := "0"
+				if a2.GetStatus() == frtypes.AuctionStatusStarted && len(a2.GetEndTimes()) == 3 {
+					ext = "1"
+				}
+				enc.Encode(ev{Op: "ext_decision", In: []string{s(big.NewInt(last)), s(big.NewInt(nowMatched)), s(rate)}, Out: []string{ext}})
 			case 3: // vesting split of the proceeds of one fixed-price bid over three instalments
 				w1 := randBig(r, 17)
 				w2 := randBig(r, 17)
